@@ -195,6 +195,18 @@ func errEntryPoints(big bool) []errEP {
 			return one(e)
 		}),
 	)
+	// one parser that lives for the whole process and is never reset (a worker that keeps going after errors): what it
+	// reports for an input must not depend on the failures it has seen, limit violations included
+	eps = append(eps, errEP{"Parser(long-lived).ParseFromModelTokens", func(s string) []error {
+		tk, _ := tokenizer.New()
+		toks, err := tk.Tokenize([]byte(s))
+		if err != nil {
+			return one(nil)
+		}
+		p := longLivedParser()
+		_, e := p.ParseFromModelTokens(toks)
+		return one(e)
+	}})
 	if big {
 		return eps
 	}
@@ -255,6 +267,41 @@ func errEntryPoints(big bool) []errEP {
 		}),
 	)
 	return eps
+}
+
+var llParser *parser.Parser
+
+// longLivedParser returns the process-wide parser; on first use it is taken through a prelude of failing inputs of
+// every limit family (nesting of parentheses, CTEs, sub-queries, NOT chains, CASE) and ordinary syntax errors in nested
+// positions, so that any state a failure leaves behind is in place before the inputs of the sweep arrive.
+func longLivedParser() *parser.Parser {
+	if llParser != nil {
+		return llParser
+	}
+	llParser = parser.NewParser()
+	deep := 130
+	prelude := []string{
+		"SELECT " + strings.Repeat("(", deep) + "1" + strings.Repeat(")", deep),
+		strings.Repeat("WITH c AS (", deep) + "SELECT 1" + strings.Repeat(") SELECT 1", deep),
+		"SELECT * FROM " + strings.Repeat("(SELECT * FROM ", deep) + "t" + strings.Repeat(") d", deep),
+		"SELECT 1 WHERE " + strings.Repeat("NOT ", deep) + "a",
+		"SELECT " + strings.Repeat("CASE WHEN a THEN ", deep) + "1" + strings.Repeat(" END", deep),
+		"SELECT a FROM t WHERE a IN (SELECT b FROM u WHERE",
+		"WITH c AS (SELECT FROM) SELECT 1",
+		"WITH c AS (SELECT a FROM t WHERE (a = ) SELECT 1",
+		"SELECT a FROM t WHERE a = 1 OR (b = ",
+		"SELECT f(g(h(",
+		"INSERT INTO t VALUES (1, (SELECT",
+	}
+	for rep := 0; rep < 3; rep++ {
+		for _, s := range prelude {
+			tk, _ := tokenizer.New()
+			if toks, err := tk.Tokenize([]byte(s)); err == nil {
+				guarded(func() { _, _ = llParser.ParseFromModelTokens(toks) })
+			}
+		}
+	}
+	return llParser
 }
 
 func genInput(kind string, n int) string {
